@@ -320,4 +320,78 @@ Section JwsProofs.
     unfold Jws.decode_envelope, json_envelope. cbn [e_payload e_protected e_header e_signature je_payload je_protected je_header je_si].
     rewrite Ex, Dsig. eexists; split; [reflexivity|]. cbn. repeat split; auto.
   Qed.
+  (* ---------- general serialisation: every recipient's entry decodes to what that recipient signed ---------- *)
+  Lemma decode_signature_encoded payload p0 p u sg :
+    Forall byte_ok payload -> Forall byte_ok sg ->
+    enc_json (oview H hview p) (oview H hview u) = true ->
+    extract_b64 (oview H hview p) = extract_b64 (oview H hview p0) ->
+    decode_signature (encode_if_b64 H hview payload p0) u
+      (match p with Some h => Some (b64u_encode (ser_header h)) | None => None end) (b64u_encode sg)
+    = Ok {| it_protected := p; it_unprotected := u; it_si := general_si H hview ser_header payload p0 p; it_sig := sg; it_claims := payload |}.
+  Proof.
+    intros Fp Fs Vj Eb. apply andb_prop in Vj as [Some_hdr Vh].
+    unfold Jws.decode_signature.
+    assert ((match (match p with Some h => Some (b64u_encode (ser_header h)) | None => None end) with
+             | None => Some None
+             | Some pb => match b64u_decode pb with Some js => match parse_header js with Some h => Some (Some h) | None => None end | None => None end
+             end) = Some p) as ->.
+    { destruct p as [h|]; [|reflexivity]. rewrite (b64u_decode_encode _ (ser_bytes h)), parse_ser. reflexivity. }
+    rewrite Vh. cbn [negb]. rewrite (b64u_decode_encode _ Fs).
+    assert ((if match p with Some h => match hb64 H hview h with Some b => b | None => true end | None => true end
+             then b64u_decode (encode_if_b64 H hview payload p0) else Some (encode_if_b64 H hview payload p0)) = Some payload) as ->.
+    { unfold encode_if_b64. rewrite <- Eb. unfold extract_b64, oview, hb64. destruct p as [h|]; [destruct (h_b64 (hview h)) as [[|]|]|];
+        try rewrite (b64u_decode_encode _ Fp); reflexivity. }
+    unfold general_si.
+    unfold some_header in Some_hdr. destruct p, u; try reflexivity. discriminate.
+  Qed.
+
+  Definition env_of (r : option H * option H * list N) : envelope H :=
+    let '(p, u, sg) := r in
+    {| e_payload := None; e_protected := match p with Some h => Some (b64u_encode (ser_header h)) | None => None end;
+       e_header := u; e_signature := b64u_encode sg |}.
+
+  Lemma enc_general_ok payload rs detached top envs :
+    enc_general H hview ser_header utf8 payload rs detached = Ok (top, envs) ->
+    exists p0 u0 s0 rest, rs = (p0, u0, s0) :: rest
+      /\ forallb (fun r => let '(p, u, _) := r in enc_add_recipient (extract_b64 (oview H hview p0)) (oview H hview p) (oview H hview u)) rs = true
+      /\ top = (if detached then None else Some (encode_if_b64 H hview payload p0))
+      /\ envs = map env_of rs.
+  Proof.
+    unfold enc_general. destruct rs as [|[[p0 u0] s0] rest]; [discriminate|].
+    destruct (forallb _ ((p0, u0, s0) :: rest)) eqn:All; cbn [negb]; [|discriminate].
+    destruct (negb detached && negb (extract_b64 (oview H hview p0) || utf8 payload)); [discriminate|].
+    intros En. inversion En. exists p0, u0, s0, rest. repeat split; auto.
+  Qed.
+
+  Theorem general_roundtrip payload rs detached top envs :
+    Forall byte_ok payload -> payload <> [] ->
+    enc_general H hview ser_header utf8 payload rs detached = Ok (top, envs) ->
+    exists p0 u0 s0 rest, rs = (p0, u0, s0) :: rest /\ length envs = length rs
+      /\ top = (if detached then None else Some (encode_if_b64 H hview payload p0))
+      /\ forall k p u sg, nth_error rs k = Some (p, u, sg) -> Forall byte_ok sg ->
+         exists env, nth_error envs k = Some env /\ e_payload H env = None /\
+           let env' := {| e_payload := top; e_protected := e_protected H env; e_header := e_header H env; e_signature := e_signature H env |} in
+           let det := if detached then Some (encode_if_b64 H hview payload p0) else None in
+           exists it, decode_envelope env' det = Ok it
+             /\ it_protected H it = p /\ it_unprotected H it = u
+             /\ it_si H it = general_si H hview ser_header payload p0 p /\ it_sig H it = sg /\ it_claims H it = payload.
+  Proof.
+    intros Fp Pne En. destruct (enc_general_ok _ _ _ _ _ En) as [p0 [u0 [s0 [rest [Ers [All [Et Ee]]]]]]].
+    exists p0, u0, s0, rest. split; [exact Ers|]. split; [rewrite Ee; apply map_length|]. split; [exact Et|].
+    intros k p u sg Hk Fs.
+    assert (In (p, u, sg) rs) as Hin by (eapply nth_error_In; exact Hk).
+    rewrite forallb_forall in All. pose proof (All _ Hin) as A. cbn beta iota in A.
+    unfold enc_add_recipient in A. apply andb_prop in A as [Eb Vj]. apply Bool.eqb_prop in Eb.
+    exists (env_of (p, u, sg)). split; [rewrite Ee, nth_error_map, Hk; reflexivity|]. split; [reflexivity|]. cbv zeta.
+    cbn [env_of e_payload e_protected e_header e_signature]. rewrite Et.
+    set (me := encode_if_b64 H hview payload p0).
+    assert (me <> []) as Mne.
+    { unfold me, encode_if_b64. destruct (extract_b64 _); [|exact Pne].
+      destruct payload as [|a [|b [|c r]]]; [congruence| | |]; cbn; discriminate. }
+    unfold Jws.decode_envelope. cbn [e_payload e_protected e_header e_signature].
+    assert (expand_payload (if detached then Some me else None) (if detached then None else Some me) = Some me) as ->.
+    { destruct detached; [reflexivity|]. unfold expand_payload, nonempty. destruct me; [congruence|reflexivity]. }
+    unfold me. rewrite (decode_signature_encoded payload p0 p u sg Fp Fs Vj Eb).
+    eexists; split; [reflexivity|]. cbn. repeat split; reflexivity.
+  Qed.
 End JwsProofs.
